@@ -154,6 +154,25 @@ def run_fasta(shard, ctx, origin_ref):
         ctx.count("fasta:cache-files")
         for sig, msg in probs[:2]:
             ctx.violation(f"cache-file:{sig}", f"{msg}\n{txt[:500]}", {"kind": "scaffolds", "scaffolds": []})
+        if i % 3 == 0:
+            # the FASTA grows (another version, later mtime) and the SAME index object is asked to load again:
+            # the .agp cache then describes the file as it is now
+            data2, _ = gfa.gen_fasta(rng_for(shard["seed"], "c06fa2", shard["index"], i), nrec=rng.randint(2, 6))
+            st = p.stat()
+            p.write_bytes(data2)
+            newer = max(st.st_mtime, Path(str(p) + ".agp").stat().st_mtime, Path(str(p) + ".fai").stat().st_mtime) + 5
+            os.utime(p, (newer, newer))
+            try:
+                fi.auto_load()
+            except Exception as e:  # noqa: BLE001
+                ctx.count(f"fasta:second-load-raised:{type(e).__name__}")
+                continue
+            recs2 = fasta_ref.parse(data2)
+            txt2 = Path(str(p) + ".agp").read_text()
+            probs2, _ = agp_ref.validate(txt2, {r["name"]: len(r["seq"]) for r in recs2})
+            ctx.count("fasta:cache-files-after-second-load-of-one-object")
+            for sig, msg in probs2[:2]:
+                ctx.violation(f"cache-file-after-second-load:{sig}", f"{msg}\n{txt2[:500]}", {"kind": "scaffolds", "scaffolds": []})
 
 
 def fault_leg(ctx, cr, rng):
@@ -341,6 +360,7 @@ def plan(tier, seed):
 def gates(c, tier):
     need = {
         "cli:rerun-over-older-agp-files": 5,
+        "fasta:cache-files-after-second-load-of-one-object": 300,
         "agp-valid": 4000,
         "agp-valid:with-gaps": 2000,
         "remap:pv:agp-texts": 500,
